@@ -216,6 +216,13 @@ def curated() -> List[Dict[str, Any]]:
     # type changes across context-only nodes; subclass passes the gate
     T.append(_t("c.type-change-ctx-only", INT, [("a", "v1", "f0")], [("comp", "OpToOther", []), ("delete", "a"), ("comp", "OpAddDef", [])]))
     T.append(_t("c.subclass-ok", INT, [], [("comp", "OpSub", []), ("comp", "CpSum", [("a", "v1", None)]), ("comp", "OpAddDef", [])]))
+    # one key written by two nodes (the later value is the one consumers see); re-created after a delete
+    T.append(_t("c.key-created-twice", INT, [("a", "v1", "f0")], [("comp", "OpCtxW", []), ("comp", "CpSum", [("a", "v2", "f1")]), ("rename", "out", "factor"), ("comp", "OpAff", [])]))
+    T.append(_t("c.key-recreated-after-delete", INT, [("a", "v1", "f0")], [("comp", "CpSum", [("a", "v2", "f1")]), ("delete", "out"), ("comp", "OpCtxW", []), ("rename", "out", "addend"), ("comp", "OpAdd", [])]))
+    T.append(_t("c.probe-then-op-same-key", INT, [], [("comp", "PrVal", [], "out"), ("comp", "OpCtxW", []), ("rename", "out", "addend"), ("comp", "OpAdd", [])]))
+    # a node that requires a key an earlier node deleted AND re-creates that very key itself
+    T.append(_t("c.delete-then-self-recreate-probe", INT, [("offset", "v1", "f0")], [("delete", "offset"), ("comp", "PrReq", [], "offset"), ("comp", "PrParam", [], "out")]))
+    T.append(_t("c.delete-then-self-recreate-template", INT, [("a", "s0", "f0"), ("b", "s1", "f1")], [("delete", "a"), ("template", ["a", "b"], "a"), ("comp", "OpAddDef", [])]))
     # the subclass is lost when an operation declared on the base type sits in between (also across a context-only node)
     T.append(_t("c.sub-decl-chain", INT, [], [("comp", "OpSubDecl", []), ("comp", "OpNeedSub", []), ("comp", "OpAddDef", [])]))
     T.append(_t("c.sub-lost-through-base-op", INT, [("addend", "v1", "f0")], [("comp", "OpSubDecl", []), ("comp", "OpAddDef", []), ("comp", "OpNeedSub", [])]))
